@@ -96,7 +96,15 @@ def initSt : St :=
                 dontEnum := ["call", "apply", "bind"] },
               { props := [("length", .num 1)], proto := some fnProto, kind := .builtin "call", dontEnum := ["length"] },
               { props := [("length", .num 2)], proto := some fnProto, kind := .builtin "apply", dontEnum := ["length"] },
-              { props := [("length", .num 1)], proto := some fnProto, kind := .builtin "bind", dontEnum := ["length"] } ],
+              { props := [("length", .num 1)], proto := some fnProto, kind := .builtin "bind", dontEnum := ["length"] },
+              -- §15.11.7.7 the NativeError prototype objects ([[Class]] "Error"; their `name` is the kind's)
+              { props := [], proto := some objProto, kind := .error "TypeError" },
+              { props := [], proto := some objProto, kind := .error "ReferenceError" },
+              -- §15.5.4, §15.7.4, §15.6.4: String.prototype, Number.prototype, Boolean.prototype (no property of
+              -- theirs is part of this layer)
+              { props := [], proto := some objProto, kind := .plain },
+              { props := [], proto := some objProto, kind := .plain },
+              { props := [], proto := some objProto, kind := .plain } ],
     envs := [ { vars := [], outer := none } ],     -- env 0: the global (object) environment over heap[0]
     trace := [] }
 
@@ -123,8 +131,15 @@ def St.setObj (σ : St) (a : Nat) (o : Obj) : St := { σ with heap := setNth σ.
 def St.newEnv (σ : St) (e : Env) : Nat × St := (σ.envs.length, { σ with envs := σ.envs ++ [e] })
 def St.setEnv (σ : St) (i : Nat) (e : Env) : St := { σ with envs := setNth σ.envs i e }
 
+def typeErrProto : Nat := 6
+def refErrProto : Nat := 7
+def strProto : Nat := 8
+def numProto : Nat := 9
+def boolProto : Nat := 10
+
 def mkError (σ : St) (name : String) : V × St :=
-  let (a, σ') := σ.alloc { props := [], proto := some objProto, kind := .error name }
+  let (a, σ') := σ.alloc { props := [], proto := some (if name = "ReferenceError" then refErrProto else typeErrProto),
+                           kind := .error name }
   (.ref a, σ')
 
 def throwErr {α : Type} (σ : St) (name : String) : Res α :=
@@ -838,6 +853,25 @@ def evalE : Nat → FE → Ctx → St → Res V
       match evalE n t c σ with
       | .ok tv σ1 => if truthy tv then evalE n a c σ1 else evalE n b c σ1
       | r => r
+    | .protoOf e1 =>
+      -- §15.2.3.2: TypeError unless the argument is an object
+      match evalE n e1 c σ with
+      | .ok (.ref a) σ1 =>
+        (match σ1.obj? a with
+         | some o => .ok (match o.proto with | some q => .ref q | none => .null) σ1
+         | none => .ok .null σ1)
+      | .ok _ σ1 => throwErr σ1 "TypeError"
+      | r => r
+    | .regex =>
+      -- §7.8.5: every evaluation of the literal creates a new object (§15.10.7: source, global, ignoreCase,
+      -- multiline read-only, lastIndex writable; none enumerable or configurable)
+      let (a, σ1) := σ.alloc { props := [("global", .bool false), ("ignoreCase", .bool false), ("multiline", .bool false),
+                                         ("lastIndex", .num 0), ("source", .str "x")],
+                               proto := some objProto, kind := .plain,
+                               dontEnum := ["global", "ignoreCase", "multiline", "lastIndex", "source"],
+                               readOnly := ["global", "ignoreCase", "multiline", "source"],
+                               dontDelete := ["global", "ignoreCase", "multiline", "lastIndex", "source"] }
+      .ok (.ref a) σ1
     | .delX e1 =>
       -- §11.4.1 step 2: the operand is not a Reference (the driver only admits conditionals and (0, e) here)
       match evalE n e1 c σ with
